@@ -22,6 +22,7 @@ RULE = (
     ' Round 7: all value types 0-56/99/255 enumerated; `reuse` sends (one Message object per key, edited before each send).'
     ' Round 11: environment sweep (see C03).'
     ' Round 12: hidden-switch sweep; more tour events (value changed and changed back, a sleeper asked to present itself, process-clock jumps); pass under `python -O`.'
+    ' Round 13: 200 sleeping nodes with a parked command each.'
 )
 ASSUMPTIONS = [
     "only set commands are sent (other commands: C12); value requests from nodes are part of the traffic (their reply is a set line too)",
